@@ -290,6 +290,12 @@ def compare(op, a, b):
     x, y = lift(a), lift(b)
     if x.im is not None or y.im is not None:
         raise OutOfSubset('ordering comparison of complex numbers')
+    # |z| compared with 0 is decided on the parts of z (no square root needed)
+    for u, v, o in ((x, b, op), (y, a, {'<': '>', '<=': '>=', '>': '<', '>=': '<='}[op])):
+        if getattr(u, 'absof', None) is not None and is_concrete_num(v) and not isinstance(v, complex) and v == 0:
+            re_, im_ = u.absof
+            zero = z3.And(re_ == 0, im_ == 0)
+            return {'>': _sb(z3.Not(zero)), '>=': True, '<': False, '<=': _sb(zero)}[o]
     p, q = _same_sort(x.re, y.re)
     return SBool(z3.simplify(_PYCMP[op](p, q)))
 
@@ -371,6 +377,9 @@ def eq_value(a, b):
         if _conc_nonfinite(a) or _conc_nonfinite(b):
             return False
         x, y = lift(a), lift(b)
+        for u, v in ((x, b), (y, a)):
+            if getattr(u, 'absof', None) is not None and is_concrete_num(v) and v == 0:
+                return _sb(z3.And(u.absof[0] == 0, u.absof[1] == 0))
         if x.im is None and y.im is None:
             p, q = _same_sort(x.re, y.re)
             return _sb(p == q)
